@@ -229,7 +229,10 @@ def run_controller(chk):
     chk.cov["rule"] = (chk.cov["rule"] + " || " if chk.cov["rule"] else "") + rule
     chk.assumptions += ["Services carry at least one port; loadBalancerIP and the loadBalancerIPs annotation are never both set; "
                         "requested addresses are syntactically valid",
-                        "the informer cache follows the API server at once unless the configuration says Stale"]
+                        "the informer cache follows the API server at once unless the configuration says Stale",
+                        "a Service's sharing key is what controller/service.go documents: the stable allow-shared-ip annotation when it "
+                        "is present (even empty), the deprecated one otherwise",
+                        "API faults are finite (bounded numbers of failing status writes, failing List calls and crashes per walk)"]
 
 
 def confirm(chk, mine, steps, inits, domain_path, byw):
